@@ -23,7 +23,8 @@ type segmentTimelineGenerator struct {
 	_nrTracks      uint32
 	_started       bool
 	_shifted       bool
-	_published     bool // Segment times have been generated
+	_published     bool     // Segment times have been generated
+	manifest       *mpd.MPD // The latest generated MPD with segment times
 }
 
 func newSegmentTimelineGenerator(dstDir string, windowSize uint32) *segmentTimelineGenerator {
@@ -169,13 +170,26 @@ func (sg *segmentTimelineGenerator) generateSegmentTimelineNrMPD(log *slog.Logge
 	sg.latestSeqNr = lastNr
 	sg.oldestSeqNr = firstNr
 	sg._published = true
-	tmpFile := filepath.Join(ch.dir, timelineNrMPD+".tmp")
+	sg.manifest = manifest
+	err := sg.writeSegmentTimelineNrMPD(log)
+	if err != nil {
+		return err
+	}
+	endTime := int64(startTime*1000 + int64(lastNr+1)*int64(ch.masterSegDuration)*1000/int64(ch.masterTimescale))
+	log.Info("Wrote MPD", "name", timelineNrMPD, "oldestNr", firstNr, "latestNr", lastNr, "nowMS", nowMS, "endTime", endTime,
+		"diff", nowMS-endTime)
+	return nil
+}
+
+// writeSegmentTimelineNrMPD writes the latest generated MPD to disk by replacing the previous file.
+func (sg *segmentTimelineGenerator) writeSegmentTimelineNrMPD(log *slog.Logger) error {
+	tmpFile := filepath.Join(sg.dstDir, timelineNrMPD+".tmp")
 	ofh, err := os.Create(tmpFile)
 	if err != nil {
 		log.Error("Failed to create tmp file", "err", err)
 		return err
 	}
-	_, err = manifest.Write(ofh, "  ", true)
+	_, err = sg.manifest.Write(ofh, "  ", true)
 	if err != nil {
 		log.Error("Failed to write MPD", "err", err)
 		finalClose(ofh)
@@ -183,15 +197,69 @@ func (sg *segmentTimelineGenerator) generateSegmentTimelineNrMPD(log *slog.Logge
 	}
 	finalClose(ofh)
 
-	mpdFileName := filepath.Join(ch.dir, timelineNrMPD)
+	mpdFileName := filepath.Join(sg.dstDir, timelineNrMPD)
 	err = os.Rename(tmpFile, mpdFileName)
 	if err != nil {
 		log.Error("Failed to rename segment times", "err", err)
 	}
-	endTime := int64(startTime*1000 + int64(lastNr+1)*int64(ch.masterSegDuration)*1000/int64(ch.masterTimescale))
-	log.Info("Wrote MPD", "name", timelineNrMPD, "oldestNr", firstNr, "latestNr", lastNr, "nowMS", nowMS, "endTime", endTime,
-		"diff", nowMS-endTime)
 	return nil
+}
+
+// dropOldFromMPD drops the sequence numbers below firstNr, but never the latest one, from the start
+// of the latest generated MPD and writes it to disk. It is used before segments are removed from storage
+// when the MPD cannot be regenerated because the tracks have no sequence number in common.
+func (sg *segmentTimelineGenerator) dropOldFromMPD(log *slog.Logger, firstNr uint32) error {
+	if !sg._published {
+		return nil
+	}
+	if firstNr > sg.latestSeqNr {
+		firstNr = sg.latestSeqNr
+	}
+	if firstNr <= sg.oldestSeqNr {
+		return nil
+	}
+	nrToDrop := int(firstNr - sg.oldestSeqNr)
+	for _, as := range sg.manifest.Periods[0].AdaptationSets {
+		st := as.SegmentTemplate
+		st.StartNumber = mpd.Ptr(firstNr)
+		dropFirstSegments(st.SegmentTimeline, nrToDrop)
+	}
+	sg.oldestSeqNr = firstNr
+	err := sg.writeSegmentTimelineNrMPD(log)
+	if err != nil {
+		return err
+	}
+	log.Info("Dropped old segments from MPD", "name", timelineNrMPD, "oldestNr", sg.oldestSeqNr, "latestNr", sg.latestSeqNr)
+	return nil
+}
+
+// dropFirstSegments drops the nrToDrop first segments of a segment timeline where only the first entry has a time.
+func dropFirstSegments(stl *mpd.SegmentTimelineType, nrToDrop int) {
+	if stl == nil || len(stl.S) == 0 || stl.S[0].T == nil {
+		return
+	}
+	t := *stl.S[0].T
+	for nrToDrop > 0 && len(stl.S) > 0 {
+		s := stl.S[0]
+		nrInS := s.R + 1
+		if nrToDrop < nrInS {
+			s.R -= nrToDrop
+			t += uint64(nrToDrop) * s.D
+			break
+		}
+		t += uint64(nrInS) * s.D
+		nrToDrop -= nrInS
+		stl.S = stl.S[1:]
+	}
+	if len(stl.S) > 0 {
+		stl.S[0].T = mpd.Ptr(t)
+	}
+}
+
+// listedRange returns the first and last sequence number in the latest generated segment times.
+// ok is false if no segment times have been generated.
+func (sg *segmentTimelineGenerator) listedRange() (first, last uint32, ok bool) {
+	return sg.oldestSeqNr, sg.latestSeqNr, sg._published
 }
 
 // modifySegmentTemplate modifies the segment template to use the segment times for an adaptation set.
